@@ -66,6 +66,14 @@ fn done_by(w: &World, c: usize, t: usize) -> bool {
     w.children[c].polls.iter().any(|p| p.t <= t && p.res.is_final())
 }
 
+/// first child that has not been polled at all by time `t` although its very first poll would return
+/// one of `first` (so the combinator cannot know that it is pending)
+fn unpolled_but_ready(sc: &Scenario, w: &World, t: usize, first: &[crate::world::Step]) -> Option<usize> {
+    (0..sc.children.len().min(w.children.len())).find(|&c| {
+        sc.children[c].first().map(|s| first.contains(s)).unwrap_or(false) && !w.children[c].polls.iter().any(|p| p.t <= t)
+    })
+}
+
 fn expect(s: &Span, want: &PRes, why: &str) -> Option<String> {
     if &s.res != want {
         Some(format!("poll #{}: expected {} ({why}) but the combinator returned {}", s.k, want.show(), s.res.show()))
@@ -355,6 +363,7 @@ fn c20(sc: &Scenario, w: &World) -> Option<String> {
     let mut fired = vec![false; n];
     let mut need: Vec<usize> = vec![];
     let mut in_span: Vec<usize> = vec![];
+    let mut in_span_flag = vec![false; n];
     let is_group = sc.family.ends_with("_group");
     for e in &w.log {
         match e {
@@ -364,11 +373,12 @@ fn c20(sc: &Scenario, w: &World) -> Option<String> {
             Ev::ChildDrop { c } => dropped[*c] = true,
             Ev::ParentPollStart { .. } => {
                 need = (0..n).filter(|&x| fired[x] && !dropped[x]).collect();
-                in_span.clear();
+                in_span.drain(..).for_each(|x| in_span_flag[x] = false);
             }
             Ev::ChildPoll { c, wid, res, .. } => {
                 polled[*c] = true;
                 in_span.push(*c);
+                in_span_flag[*c] = true;
                 last[*c] = Some((*wid, *res));
                 fired[*c] = false;
             }
@@ -388,7 +398,7 @@ fn c20(sc: &Scenario, w: &World) -> Option<String> {
                         w.children[x].label
                     ));
                 }
-                if let Some(x) = need.iter().find(|&&x| !dropped[x] && !in_span.contains(&x)) {
+                if let Some(x) = need.iter().find(|&&x| !dropped[x] && !in_span_flag[x]) {
                     return Some(format!(
                         "poll #{k} returned Pending without polling child {x}, which had invoked its waker since its last poll \
                          (a woken child was held back)"
@@ -409,6 +419,15 @@ fn c16(_sc: &Scenario, w: &World) -> Option<String> {
     if !is_std() {
         return None;
     }
+    // times at which each (interned) waker was invoked, ascending
+    let mut wake_times: Vec<Vec<usize>> = vec![Vec::new(); w.wakers.len()];
+    for (t, e) in w.log.iter().enumerate() {
+        if let Ev::Wake { wid, .. } = e {
+            if let Some(v) = wake_times.get_mut(*wid) {
+                v.push(t);
+            }
+        }
+    }
     for (c, ch) in w.children.iter().enumerate() {
         for j in 1..ch.polls.len() {
             let prev = &ch.polls[j - 1];
@@ -416,7 +435,11 @@ fn c16(_sc: &Scenario, w: &World) -> Option<String> {
             if prev.res != CRes::Pending {
                 continue;
             }
-            let woke = w.log[prev.t..cur.t].iter().any(|e| matches!(e, Ev::Wake { wid, .. } if *wid == prev.wid));
+            // an invocation of the previous poll's waker in [prev.t, cur.t)
+            let woke = wake_times.get(prev.wid).map_or(false, |v| {
+                let i = v.partition_point(|t| *t < prev.t);
+                i < v.len() && v[i] < cur.t
+            });
             if !woke {
                 return Some(format!(
                     "child {c} ({}) returned Pending at its poll #{} and was polled again (poll #{j}) although none of its \
@@ -501,7 +524,8 @@ fn c05(sc: &Scenario, w: &World) -> Option<String> {
 // C06 race
 // ---------------------------------------------------------------------------------------
 
-fn c06(_sc: &Scenario, w: &World) -> Option<String> {
+fn c06(sc: &Scenario, w: &World) -> Option<String> {
+    use crate::world::Step;
     for s in spans(w) {
         if let Some(m) = own_panic(w, &s) {
             return Some(m);
@@ -519,6 +543,12 @@ fn c06(_sc: &Scenario, w: &World) -> Option<String> {
             }
         } else if let Some(m) = expect(&s, &PRes::Pending, "no child resolved in this poll") {
             return Some(m);
+        } else if let Some(c) = unpolled_but_ready(sc, w, s.end, &[Step::Ready, Step::Ok, Step::Err, Step::Item]) {
+            return Some(format!(
+                "poll #{}: the race returned Pending although child {c} resolves at its first poll and has never been \
+                 polled (a race over children that are ready must resolve)",
+                s.k
+            ));
         }
     }
     None
@@ -529,6 +559,7 @@ fn c06(_sc: &Scenario, w: &World) -> Option<String> {
 // ---------------------------------------------------------------------------------------
 
 fn c07(sc: &Scenario, w: &World) -> Option<String> {
+    use crate::world::Step;
     let n = n_children(sc);
     for s in spans(w) {
         if let Some(m) = own_panic(w, &s) {
@@ -555,6 +586,11 @@ fn c07(sc: &Scenario, w: &World) -> Option<String> {
             }
         } else if let Some(m) = expect(&s, &PRes::Pending, "no success seen and some child unresolved") {
             return Some(m);
+        } else if let Some(c) = unpolled_but_ready(sc, w, s.end, &[Step::Ok, Step::Ready, Step::Item]) {
+            return Some(format!(
+                "poll #{}: race_ok returned Pending although child {c} succeeds at its first poll and has never been polled",
+                s.k
+            ));
         }
     }
     None
@@ -749,13 +785,22 @@ fn c17(sc: &Scenario, w: &World) -> Option<String> {
         if yields.len() < n {
             continue;
         }
-        for a in 0..=(yields.len() - n) {
-            let window = &yields[a..a + n];
-            if window.contains(&p) {
+        // maximal stretches [a, e) of yields without an item of p; `before` = items of p yielded before the
+        // stretch. The first window of n yields inside such a stretch (if it is that long) starts at a.
+        let mut before = 0usize;
+        let mut a = 0usize;
+        while a < yields.len() {
+            if yields[a] == p {
+                before += 1;
+                a += 1;
                 continue;
             }
-            let before = yields[..a].iter().filter(|c| **c == p).count();
-            if before < total {
+            let mut e = a;
+            while e < yields.len() && yields[e] != p {
+                e += 1;
+            }
+            if e - a >= n && before < total {
+                let window = &yields[a..a + n];
                 return Some(format!(
                     "input {p} has an item available at every poll, yet yields #{a}..#{} ({} consecutive items of a merge of {n}) \
                      came from inputs {:?} only",
@@ -764,6 +809,7 @@ fn c17(sc: &Scenario, w: &World) -> Option<String> {
                     window
                 ));
             }
+            a = e;
         }
     }
     None
@@ -846,6 +892,7 @@ fn c11_12(sc: &Scenario, w: &World) -> Option<String> {
     let mut drops_since_q: Vec<usize> = vec![];
     let mut span_polls: Vec<(usize, CRes)> = vec![];
     let mut in_span = false;
+    let mut polled: Vec<bool> = vec![false; w.children.len()];
     for e in &w.log {
         match e {
             Ev::Quiescent => drops_since_q.clear(),
@@ -935,6 +982,7 @@ fn c11_12(sc: &Scenario, w: &World) -> Option<String> {
                 span_polls.clear();
             }
             Ev::ChildPoll { c, res, .. } if in_span => {
+                polled[*c] = true;
                 if !live.iter().any(|m| m.child == *c) {
                     return Some(format!("child {c} was polled although it is not a live member (removed / finished)"));
                 }
@@ -1019,6 +1067,13 @@ fn c11_12(sc: &Scenario, w: &World) -> Option<String> {
                         if live.is_empty() {
                             return Some(format!("poll #{k} returned Pending although the group is empty (expected None)"));
                         }
+                        // "Pending" says that no live member has a value now: every one of them must have been asked
+                        if let Some(m) = live.iter().find(|m| !polled[m.child]) {
+                            return Some(format!(
+                                "poll #{k} returned Pending although the live member {} ({}) has never been polled",
+                                m.child, w.children[m.child].label
+                            ));
+                        }
                     }
                     _ => {}
                 }
@@ -1102,6 +1157,24 @@ fn co_panic(w: &World) -> Option<String> {
     None
 }
 
+/// `{got:?}` for short lists; for long ones (large scenarios) the length plus what is missing / unexpected
+fn show_items(got: &[usize], want: &[usize]) -> String {
+    if got.len().max(want.len()) <= 24 {
+        return format!("{got:?}");
+    }
+    let missing: Vec<usize> = want.iter().copied().filter(|x| !got.contains(x)).collect();
+    let extra: Vec<usize> = got.iter().copied().filter(|x| !want.contains(x)).collect();
+    format!("[{} items: missing {missing:?}, unexpected {extra:?}]", got.len())
+}
+
+fn show_want(want: &[usize]) -> String {
+    if want.len() <= 24 {
+        format!("{want:?}")
+    } else {
+        format!("[0..{}]", want.len())
+    }
+}
+
 fn dup(v: &[usize]) -> Option<usize> {
     (0..v.len()).find(|&i| v[..i].contains(&v[i])).map(|i| v[i])
 }
@@ -1133,8 +1206,10 @@ fn c13(sc: &Scenario, w: &World) -> Option<String> {
         let want: Vec<usize> = (0..f.expected).collect();
         if sorted != want {
             return Some(format!(
-                "for_each resolved after invoking the closure for source items {sorted:?}; expected exactly {want:?} \
+                "for_each resolved after invoking the closure for source items {}; expected exactly {} \
                  (source length {}, stack {:?})",
+                show_items(&sorted, &want),
+                show_want(&want),
                 f.len,
                 sc.co.as_ref().unwrap().stack.iter().map(|a| a.to_str()).collect::<Vec<_>>()
             ));
@@ -1208,7 +1283,11 @@ fn c14(sc: &Scenario, w: &World) -> Option<String> {
                 sorted.sort();
                 let want: Vec<usize> = (0..f.expected).collect();
                 if sorted != want {
-                    return Some(format!("{term} resolved to Ok after processing source items {sorted:?}; expected {want:?}"));
+                    return Some(format!(
+                        "{term} resolved to Ok after processing source items {}; expected {}",
+                        show_items(&sorted, &want),
+                        show_want(&want)
+                    ));
                 }
                 for (c, ch) in w.children.iter().enumerate() {
                     if ch.label.starts_with(&format!("{stage}:")) && !done_by(w, c, *t) {
@@ -1275,7 +1354,9 @@ fn c15(sc: &Scenario, w: &World) -> Option<String> {
         sorted.sort();
         if sorted != want {
             return Some(format!(
-                "operation resolved with closure of stage {st} invoked for source items {sorted:?}; expected exactly {want:?}"
+                "operation resolved with closure of stage {st} invoked for source items {}; expected exactly {}",
+                show_items(&sorted, &want),
+                show_want(&want)
             ));
         }
     }
@@ -1312,8 +1393,10 @@ fn c15(sc: &Scenario, w: &World) -> Option<String> {
         got.sort();
         if got != want {
             return Some(format!(
-                "collect returned the outputs for source items {got:?}; expected exactly {want:?} \
+                "collect returned the outputs for source items {}; expected exactly {} \
                  (source length {}, stack {:?})",
+                show_items(&got, &want),
+                show_want(&want),
                 f.len,
                 co.stack.iter().map(|a| a.to_str()).collect::<Vec<_>>()
             ));
